@@ -30,6 +30,14 @@ THEOREMS = [
     "loop_empty",
     "loopUpdate_pres_partial",
     "vertex_visit",
+    "verdict_ok_closed",
+    "loop_invariant_start",
+    "loop_step_invariant",
+    "link_flip_consistent",
+    "loopUpdate_consistent",
+    "loopUpdate_pres",
+    "loop_out_of_fuel",
+    "loop_head_exists",
     "reach_flags",
     "cluster_gate",
     "offset_bookkeeping",
@@ -40,6 +48,9 @@ THEOREMS = [
     "free_refresh_spec",
     "classification_meaning",
     "free_refresh_consistent",
+    "loop_keeps_single_site_diagonal",
+    "diagonal_sweep_keeps_single_site_diagonal",
+    "gate_off_single_site_stays_diagonal",
 ]
 
 RULE = ("generic samplers over four interaction families (two-site exchange-type rings/chains, Ising-symmetric diagonal + "
@@ -73,6 +84,8 @@ def main(ck):
             ck.correspond(name, "drv_c04", cases)
         # known finding F20 (non-ergodic interaction sets; fixed, seed-independent witness inputs)
         ck.correspond("nonergodic-witness", "drv_c04", ck.harness("c04", ["nonergodic"]))
+        # heat-bath bond-weight table of generic samplers with 3-/4-variable terms (oracle on the real code only)
+        ck.correspond("heatbath-table-maxima", "drv_c04", ck.harness("c04", ["hbtable"]))
         # the diagonal-update kernels C04 composes (same harness modes as C08 / C02)
         ck.correspond("diagonal-sweep-trajectory", "drv_c08", ck.harness("c08", ["traj"]))
         ck.correspond("diagonal-slot-probabilities", "drv_c08", ck.harness("c08", ["prob"]))
